@@ -3,8 +3,10 @@ package main
 import (
 	"fmt"
 	"go/types"
+	"os"
 	"reflect"
 	"sort"
+	"strconv"
 	"strings"
 
 	"golang.org/x/tools/go/ssa"
@@ -517,5 +519,22 @@ func rulesC13(e *Engine, r *Report) {
 		n := e.Guarded(r, "R13.11", "payload.(*Encoder).Read: startNextPart only when the current part is emitted in full", fn, e.instrMatch("call(payload.(*Encoder).startNextPart)(p0)"), cls,
 			func(l LabelSet) bool { return l.HasAny("noPart", "partEmitted") }, "binPart == nil, or bytes left of the part == 0")
 		r.Min("R13.11", "part switches in Encoder.Read", n, 2)
+	}
+	// ---------------------------------------------------------------- R13.12
+	r.Rule("R13.12", "the separator announced is the separator used: every request or answer that carries X-STS-Sep sets it to the path separator of the platform it is built for (string(os.PathSeparator)) - the peer splits every name and predecessor on the announced character and re-joins with its own, so any other character that can occur in a name (the list separator `:` of time stamps, say) turns into directory levels on arrival")
+	{
+		sepKey := e.constOr("http", "HeaderSep")
+		want := strconv.Quote(string(os.PathSeparator))
+		n := 0
+		for _, fn := range e.FuncsIn("http") {
+			for _, in := range e.findInstrs(fn, "call(http.(Header).«(Add|Set)»)(§, "+sepKey+", §)", false) {
+				n++
+				args := in.(ssa.CallInstruction).Common().Args
+				v := e.Canon(args[len(args)-1])
+				r.Check(v == want, "R13.12", e.ShortName(fn)+": X-STS-Sep = string(os.PathSeparator)", e.InstrPos(in),
+					"the separator header is set to "+v+", not to the path separator "+want, 1, v)
+			}
+		}
+		r.Min("R13.12", "places that set X-STS-Sep", n, 4)
 	}
 }
